@@ -215,6 +215,10 @@ fn check_poly(v: &[P2], obs: &mut Obs) {
             obs.fail("translated-polyline-points-move-along", format!("{} points after translate, {} expected", mp.len(), want.len()));
         }
         let styled = moved.into_styled(PrimitiveStyle::with_stroke(BinaryColor::On, 1));
+        let sp: Pts = styled.pixels().map(|p| (p.0.x, p.0.y)).collect();
+        if sp != want {
+            obs.fail("one-pixel-polyline==union-of-segment-lines", format!("translate({:?}): pixels() yields {} distinct pixels, {} expected; first difference {:?}", (d.x, d.y), sp.len(), want.len(), sp.symmetric_difference(&want).next()));
+        }
         let bb = moved.bounding_box();
         let win = Rectangle::new(bb.top_left - Point::new(1, 1), bb.size + Size::new(2, 2));
         for tb in [None, Some(win)] {
